@@ -129,6 +129,21 @@ func facts(f *hc.Facts) {
 		})
 	}
 	boolFact(f, "rejectsBeyondTail", checkPos > 0 && copyPos > checkPos, vcFound && checkPos == 0, "cdn.verifyChunk: `windowDataEnd < windowEnd && windowDataEnd < chunkEnd` → error, before the overlap copy")
+	// verifyChunk: the cursor advances to the end of the window just handled
+	adv := ""
+	if fd := f.FuncDecl(dir, "cdn.verifyChunk"); fd != nil {
+		ast.Inspect(fd.Body, func(n ast.Node) bool {
+			fs, ok := n.(*ast.ForStmt)
+			if !ok || fs.Cond == nil || f.Src(fs.Cond) != "current < chunkEnd" {
+				return true
+			}
+			if k := len(fs.Body.List); k > 0 {
+				adv = f.Src(fs.Body.List[k-1])
+			}
+			return false
+		})
+	}
+	boolFact(f, "cursorAdvancesToWindowEnd", adv == "current = windowEnd", adv != "" && adv != "current = windowEnd", "cdn.verifyChunk: last statement of the window loop: "+adv)
 	boolFact(f, "rejectsTruncatedSplit", truncPos > 0 && copyPos > truncPos, vcFound && truncPos == 0, "cdn.verifyChunk: `shortResponse && windowDataEnd > chunkEnd` → error, before the overlap copy")
 	// verifier.verify
 	vsrc := f.FuncSrc(dir, "verifier.verify")
@@ -165,6 +180,11 @@ type world struct {
 	badCDNReq      string
 	cdnLog         []string
 	hashReqs       int
+	// runs of consecutive retryable RPC timeouts (no wall-clock cost): on the data request at one
+	// offset (master or CDN) and on the first hash requests; retried by reader.next / verifier.next
+	dataFaultOff int64
+	dataFaults   int
+	hashFaults   int
 	redirects      int
 	reuploads      int
 }
@@ -218,6 +238,10 @@ func (w *world) UploadGetFile(ctx context.Context, r *tg.UploadGetFileRequest) (
 	if w.cdnFile && r.CDNSupported {
 		return w.redirect(), nil
 	}
+	if w.dataFaults > 0 && r.Offset == w.dataFaultOff {
+		w.dataFaults--
+		return nil, tgerr.New(-503, "Timeout")
+	}
 	return &tg.UploadFile{Type: &tg.StorageFilePng{}, Bytes: w.serve(r.Offset, r.Limit)}, nil
 }
 
@@ -225,6 +249,10 @@ func (w *world) UploadGetFileHashes(ctx context.Context, r *tg.UploadGetFileHash
 	w.mu.Lock()
 	defer w.mu.Unlock()
 	w.hashReqs++
+	if w.hashFaults > 0 {
+		w.hashFaults--
+		return nil, tgerr.New(-503, "Timeout")
+	}
 	return w.hashes(r.Offset), nil
 }
 
@@ -232,6 +260,10 @@ func (w *world) UploadGetCDNFileHashes(ctx context.Context, r *tg.UploadGetCDNFi
 	w.mu.Lock()
 	defer w.mu.Unlock()
 	w.hashReqs++
+	if w.hashFaults > 0 {
+		w.hashFaults--
+		return nil, tgerr.New(-503, "Timeout")
+	}
 	return w.hashes(r.Offset), nil
 }
 
@@ -269,6 +301,10 @@ func (c cdnConn) UploadGetCDNFile(ctx context.Context, r *tg.UploadGetCDNFileReq
 		w.badCDNReq = fmt.Sprintf("offset=%d limit=%d crosses a 1 MiB boundary", o, l)
 	}
 	w.cdnLog = append(w.cdnLog, fmt.Sprintf("%d+%d", o, l))
+	if w.dataFaults > 0 && o == w.dataFaultOff {
+		w.dataFaults--
+		return nil, tgerr.New(-503, "Timeout")
+	}
 	if w.cdnReqs == w.tokenInvalidAt {
 		return nil, tgerr.New(400, "FILE_TOKEN_INVALID")
 	}
@@ -296,6 +332,7 @@ type vcase struct {
 	wsizes []int
 	w      *world
 	tamper string
+	faults string
 	seed   uint64
 }
 
@@ -504,6 +541,46 @@ func genCase(r *hc.RNG, thorough bool) *vcase {
 		w.quirkAt = int64(wsz*r.Intn(nwin) + 4096*r.Range(1, wsz/4096-2))
 		w.quirkBy = -hc.Pick(r, 1, 16, 100, 4095)
 	}
+	if r.Chance(7) && v.mode == "A" && v.tamper != "tail-garbage" && v.tamper != "split-truncate" {
+		// targeted: a part smaller than the hash window that starts inside one window and ends in the
+		// head of the next; the CDN corrupts a byte of that head in its answer to the part request and
+		// answers whole-window re-fetches honestly: the corrupted bytes must be replaced or rejected
+		v.tamper = "straddle-corrupt"
+		wsz = 16384
+		nwin := r.Range(2, 4)
+		size = nwin*wsz - r.Intn(200)
+		file = r.Bytes(size)
+		wins, wsizes = nil, nil
+		for off := 0; off < size; off += wsz {
+			end := off + wsz
+			if end > size {
+				end = size
+			}
+			h := sha256.Sum256(file[off:end])
+			wins = append(wins, window{off, wsz, h[:]})
+			wsizes = append(wsizes, wsz)
+		}
+		v.wsizes = wsizes
+		v.ps = 12288
+		w.file, w.wins = file, wins
+		w.quirkAt = -1
+		plain = append([]byte(nil), file...)
+		// parts [12288,24576) / [36864,49152) start mid-window and reach into the next window
+		b := hc.Pick(r, 16384, 16384, 49152)
+		if b+100 >= size {
+			b = 16384
+		}
+		hi := b + 8192
+		if b == 49152 {
+			hi = b // (part [36864,49152) ends exactly at the boundary: use the first straddle instead)
+			b, hi = 16384, 16384+8192
+		}
+		if hi > size {
+			hi = size
+		}
+		plain[b+r.Intn(hi-b)] ^= byte(1 + r.Intn(255))
+		w.honestLimit = wsz
+	}
 	if v.mode == "C" {
 		w.image = plain
 		w.honest = file
@@ -522,6 +599,18 @@ func genCase(r *hc.RNG, thorough bool) *vcase {
 			}
 		}
 	}
+	if r.Chance(25) {
+		// long runs of retryable timeouts on one part / on the hash requests
+		n := hc.Pick(r, 1, 5, 19, 20, 21, 40, 64)
+		if r.Bool() {
+			w.dataFaultOff = int64(v.ps * r.Intn(len(w.file)/v.ps+1))
+			w.dataFaults = n
+		} else {
+			w.hashFaults = n
+		}
+		w.tokenInvalidAt, w.reuploadAt = 0, 0
+	}
+	v.faults = fmt.Sprintf("%d@%d/%d", w.dataFaults, w.dataFaultOff, w.hashFaults)
 	v.w = w
 	return v
 }
@@ -661,7 +750,10 @@ func run(c *hc.Ctx) error {
 			quirk += "/" + strconv.Itoa(w.honestLimit)
 		}
 		line := fmt.Sprintf("dl %s %d %d %s %s %s %s %s %s", v.mode, v.ps, w.batch, joinInts(v.wsizes), hc.Hex(w.key), hc.Hex(w.iv), quirk, hc.Hex(w.file), hc.Hex(w.image))
-		sig := fmt.Sprintf("dl %s ps=%d batch=%d wins=%s quirk=%s tamper=%s size=%d seed=%d events=%d/%d", v.mode, v.ps, w.batch, joinInts(v.wsizes), quirk, v.tamper, len(w.file), v.seed, w.tokenInvalidAt, w.reuploadAt)
+		sig := fmt.Sprintf("dl %s ps=%d batch=%d wins=%s quirk=%s tamper=%s size=%d seed=%d events=%d/%d timeouts=%s", v.mode, v.ps, w.batch, joinInts(v.wsizes), quirk, v.tamper, len(w.file), v.seed, w.tokenInvalidAt, w.reuploadAt, v.faults)
+		if v.faults != "0@0/0" {
+			c.Count("dl.timeout-runs")
+		}
 		c.Eval(sig, v.tamper != "honest" || len(w.file) > v.ps)
 		c.Count("dl.mode=" + v.mode)
 		c.Count("dl.tamper=" + v.tamper)
@@ -727,7 +819,7 @@ func run(c *hc.Ctx) error {
 		add(line, impl)
 	}
 	c.Res.Exhaustive = true
-	c.Res.Rule = fmt.Sprintf("request plan: (offset, limit) pairs on the 4 KiB grid up to %d/%d (quick tier thins out limits > 128 KiB; thorough enumerates all, exhaustive) plus off-grid/negative arguments; decrypt: random keys/IVs (counter bytes near 2^32), offsets incl. offset/16 ≥ 2^32; downloads: files of 1..6 hash windows (4–16 KiB, uniform or uneven, last window short), part sizes aligned and unaligned to the windows, served honestly or corrupted / truncated at and off window boundaries / one answer extended or shortened / windows reordered / garbage appended, with FILE_TOKEN_INVALID and reupload-needed events, in three modes (CDN inline verification, CDN + verifier queue, master + verifier queue); non-trivial = tampered or more than one part; distinct = distinct case parameters", maxOff, maxLim)
+	c.Res.Rule = fmt.Sprintf("request plan: (offset, limit) pairs on the 4 KiB grid up to %d/%d (quick tier thins out limits > 128 KiB; thorough enumerates all, exhaustive) plus off-grid/negative arguments; decrypt: random keys/IVs (counter bytes near 2^32), offsets incl. offset/16 ≥ 2^32; downloads: files of 1..6 hash windows (4–16 KiB, uniform or uneven, last window short), part sizes aligned and unaligned to the windows, served honestly or corrupted / truncated at and off window boundaries / one answer extended or shortened / windows reordered / garbage appended, with FILE_TOKEN_INVALID and reupload-needed events and runs of 1..64 retryable timeouts on one part or on the hash requests, in three modes (CDN inline verification, CDN + verifier queue, master + verifier queue); non-trivial = tampered or more than one part; distinct = distinct case parameters", maxOff, maxLim)
 	c.PartialNote("unforgeability / collision resistance of SHA-256 is not modelled: the theorems say that what is delivered hashed to the master's values")
 	c.PartialNote("token refresh / reupload / DC switch state machine of cdn.Chunk is exercised (outcome compared) but not modelled; parallel CDN downloads and the verified-window cache (which only saves requests) are not modelled")
 
